@@ -325,21 +325,22 @@ def run_harness(rvh, cases, workdir, name="trace", timeout_ms=10000, max_timeout
 
 
 def run_harness_par(rvh, cases, workdir, name="trace", timeout_ms=10000, shards=8, max_timeouts=6):
-    """run_harness over contiguous shards of the cases in parallel processes; the events come
+    """run_harness over interleaved shards of the cases in parallel processes; the events come
     back in case order (each case is independent: one fresh parser/analysis per case)."""
     from concurrent.futures import ThreadPoolExecutor
     n = len(cases)
     if n < 4 * shards:
         return run_harness(rvh, cases, workdir, name, timeout_ms, max_timeouts)
-    size = (n + shards - 1) // shards
-    parts = [cases[i:i + size] for i in range(0, n, size)]
+    # round robin: neighbouring cases are of the same kind (and cost), contiguous shards would be unbalanced
+    parts = [cases[k::shards] for k in range(shards)]
     with ThreadPoolExecutor(max_workers=len(parts)) as ex:
         futs = [ex.submit(run_harness, rvh, part, workdir, f"{name}.s{k}", timeout_ms, max_timeouts)
                 for k, part in enumerate(parts)]
         res = [f.result() for f in futs]
-    evs = []
+    if any(len(e) != len(part) for (tp, e), part in zip(res, parts)):
+        raise ToolError("harness shards returned %s events for %s cases" % ([len(e) for tp, e in res], [len(q) for q in parts]))
+    evs = [res[i % shards][1][i // shards] for i in range(n)]
     for tp, e in res:
-        evs += e
         for suffix in ("", ".cur"):
             try:
                 os.remove(tp + suffix)
